@@ -37,7 +37,7 @@ def _spec(module):
                   'bad_BND3_handback', 'good_handback', 'h_place', 'bad_BND3_place_call', 'good_place_call', 'use_handback']
         return [{
             'units': {'cJSON.c': 'parse_bad.c', 'cJSON_Utils.c': 'utils_min.c'},
-            'rules': [bnd.bnd_parse, parse.c10_structure, parse.bnd6, tab.tab13,
+            'rules': [bnd.bnd_parse, parse.c10_structure, parse.bnd6, tab.tab13, parse.num2, parse.num3,
                       lambda units, R: parse.tab1(units, R, claim=('pv_bad', 'pv_good', 'pv_skip'))],
         }, {
             'units': {'cJSON.c': 'string_bad.c', 'cJSON_Utils.c': 'utils_min.c'},
@@ -71,7 +71,7 @@ def _spec(module):
         from . import outbuf, outsym, numcls
         return [{
             'units': {'cJSON.c': 'print_bad.c', 'cJSON_Utils.c': 'utils_min.c'},
-            'rules': [outbuf.out1, outbuf.out4, outbuf.out8, outbuf.tab2_print, outbuf.tab5bc, outbuf.tab15, outbuf.tab16, outsym.out23, numcls.num1],
+            'rules': [outbuf.out1, outbuf.out4, outbuf.out8, outbuf.tab2_print, outbuf.tab5bc, outbuf.tab15, outbuf.tab16, outsym.out23, numcls.num1, outbuf.prt1],
         }]
     raise AnalysisBroken('no fixture spec for module %s' % module)
 
